@@ -41,6 +41,7 @@ def check(m, run):
     run.floor('AG5.serial-parallel', 4, 'voxelize and container tessellate')
     run.floor('AL7.crossing-rule', 4, 'two edge classes x (range test, side test)')
     run.floor('TF1.tolerance-forwarded', 4, 'ray and voxel callees')
+    c18.kd4(m, run)        # the voxel grid covers the bounding box of the shape: the box is taken over the unweighted control points
 
 
 def vx1(m, run):
